@@ -23,6 +23,12 @@ CHECKS = {
    text="TLC proves RewriteValid and SourcesAreLeaves for every combination within bounds on the transcribed optimizer. For generated programs (repeated arguments, diamonds, mixed depths, requested intermediates, reductions, region stores) x 6 optimizer settings, the monitor judges the real DAG pair (requested arrays kept and produced, consumed arrays kept, fused sources = leaves in order) and the harness compares values with the unoptimized run and NumPy and checks that every requested array is materialized.",
    note="Trusted: TLC; the unoptimized run as value oracle (itself compared with NumPy). Bounds: DAGs <= 5 ops in the model, programs <= 7 steps in replays. Open finding F17 (legacy optimizer + stream argument) is reported as KNOWN-FINDING.",
    design_ref="DESIGN.md §5 C02, §4.6"),
+ "C03": dict(
+   engine="TaskMem+MemTrace",
+   technique="TLA+ spec TaskMem.tla (live set of a task vs calculate_projected_mem / peak_projected_mem, every operation shape in bounds) model-checked by TLC; per-task tracemalloc peaks of a catalogue of real operations (fused and unfused, two compressor/data regimes) validated by the TLA+ monitor MemTrace.tla",
+   text="TLC enumerates every operation shape within bounds and shows that the projection formula dominates the modelled live set under an explicit side condition (and that without it an under-projected shape exists). Every task of ~45 catalogue programs (element-wise, reductions incl. widening and structured intermediates, scans, linear algebra, manipulation, indexing, rechunk, fused diamonds/fan-in) is executed in-process under tracemalloc with 2-4 MB chunks and a 400 kB reserved_mem; the monitor requires peak <= projected <= allowed for each.",
+   note="Trusted: TLC; tracemalloc as the observer of data allocations (NumPy buffers, byte strings); an excess must reproduce in the minimum of three executions. Open findings F11, F12, F16, F20, F21 are reported as KNOWN-FINDING (narrow: program + operation + regime).",
+   design_ref="DESIGN.md §5 C03, §4.7"),
  "C04": dict(
    engine="Optimize+OptTrace",
    technique="TLA+ spec Optimize.tla (projected memory of fused ops, admission) model-checked by TLC with vacuity switches; budgets placed at m-1/m/m+1 of every real projection, admission traces and real pre/post projections validated by the TLA+ monitor OptTrace.tla",
@@ -53,6 +59,12 @@ CHECKS = {
    text="For every array of generated programs (intermediates, fused, each output of multi-output operators, qr) the metadata declared before computing must equal the backing Zarr array's and the result's, and every block a task writes must have exactly the shape of the region it is written into.",
    note="Trusted: TLC; zarr.Array.__setitem__ being the only path by which cubed writes blocks. Structured (field) arrays: block shapes checked, metadata triple not.",
    design_ref="DESIGN.md §5 C12"),
+ "C15": dict(
+   engine="Blockwise",
+   technique="TLA+ module Blockwise.tla is the reference semantics of index notation and of fusion provenance; TLC evaluates it on thousands of enumerated cases (one implementation test per case) and the real key functions / fused specs must agree on every output block",
+   text="(1) For random index patterns x block counts x broadcast dims x contractions x new axes x repeated arrays, the real make_blockwise_back_key_function_flattened must return exactly the reference's keys or decline where it declines. (2) Random trees of real PrimitiveOperations over 11 key-function shapes (lists, iterators, mixed-source lists, alternating/concatenating sources, repeated/swapped arguments) are fused with the real optimizer path and run on symbolic blocks through the real map_nested; the term must equal the reference's provenance term, structure included.",
+   note="Trusted: TLC as evaluator; the harness's own key functions for the 11 shapes (they are inputs, not the code under test). 1-d block grids for fusion trees.",
+   design_ref="DESIGN.md §5 C15, §4.4"),
  "C13": dict(
    engine="DagExec+DagTrace",
    technique="TLA+ spec DagExec.tla (EventsOk with duplicate/zombie executions) model-checked by TLC; callback streams, advertised num_tasks, task-iterable lengths and plan totals of real-executor runs validated by the TLA+ monitor DagTrace.tla",
